@@ -32,6 +32,7 @@ type c12Case struct {
 	Declared *string `json:"declared,omitempty"`
 	Prior    bool    `json:"prior,omitempty"`    // the key already holds an object
 	HexUpper bool    `json:"hexUpper,omitempty"` // chunk sizes in upper-case hexadecimal digits
+	ViaPart  bool    `json:"viaPart,omitempty"`  // the stream is part 1 of a multipart upload, which is then completed
 }
 
 var c12Prior = []byte("object stored before the streaming upload")
@@ -106,28 +107,14 @@ func c12Check(cs c12Case) (ds []disc) {
 		}
 	}
 	stream := oracle.ChunkedEncodeHex(payload, cs.Chunks, cs.HexUpper)
-	stream, malformed := c12Mutate(stream, payload, cs.Mut, cs.MutK)
-	if cs.Mut == "flip" || cs.Mut == "truncate" {
-		// what the damaged stream still says, by an independent positional decoder
-		dec, complete, _ := oracle.ChunkedDecode(stream)
-		switch {
-		case cs.Mut == "truncate":
-			// a prefix of a well-formed stream: it must be refused iff payload bytes are missing
-			// (if only trailing framing is missing, accepting the exact payload is allowed)
-			malformed = len(dec) < len(payload)
-			payload = dec
-		case complete:
-			payload, malformed = dec, false // still a perfectly framed stream (of possibly different bytes)
-		default:
-			// a flipped byte in a size, a literal or a CRLF: whether the damage is detected is left
-			// open; if the stream is accepted the stored bytes must be what it still carries
-			payload, malformed = dec, false
-		}
-	}
-	if len(cs.Payload.bytes()) == 0 && cs.Mut != "" {
-		// with an empty payload every mutation damages framing that comes after the last
-		// (zeroth) payload byte: accepting the empty object is inside the allowed set
-		malformed = false
+	stream, _ = c12Mutate(stream, payload, cs.Mut, cs.MutK)
+	// what the stream that is actually sent says, by an independent strict parser: well-formed
+	// (carrying dec), malformed (must be refused), or framed intact with something the statement
+	// does not judge (odd signature bytes, bytes after the terminating chunk)
+	dec, verdict := oracle.ChunkedStrict(stream)
+	malformed := verdict == oracle.ChunkMalformed
+	if !malformed {
+		payload = dec
 	}
 	declared := fmt.Sprint(len(cs.Payload.bytes()))
 	if cs.Declared != nil {
@@ -137,10 +124,43 @@ func c12Check(cs c12Case) (ds []disc) {
 	mismatch := strings.Trim(declared, " \t") != fmt.Sprint(len(payload))
 	rq := &s3x.Req{Method: "PUT", Path: "/bk0/" + key, Body: stream, Frag: cs.Frag,
 		Header: s3x.H("X-Amz-Content-Sha256", "STREAMING-AWS4-HMAC-SHA256-PAYLOAD", "X-Amz-Decoded-Content-Length", declared, "Content-Encoding", "aws-chunked", "X-Amz-Meta-Streamed", "s")}
+	uploadID := ""
+	if cs.ViaPart {
+		x := s3x.Do(st.Handler, &s3x.Req{Method: "POST", Path: "/bk0/" + key, Query: s3x.Q("uploads", s3x.Bare)})
+		var d s3x.InitiateDoc
+		if x.Status != 200 || x.XML(&d) != nil {
+			panic("harness: initiate: " + x.String())
+		}
+		uploadID = d.UploadId
+		rq.Query = s3x.Q("partNumber", "1", "uploadId", uploadID)
+	}
 	r := s3x.Do(st.Handler, rq)
 	if r.Panic != "" {
 		fail("panic", "%s at %s", r.Panic, r.PanicSite)
 		return
+	}
+	if cs.ViaPart {
+		// the pending upload holds the part exactly if the upload was acknowledged
+		lp := s3x.Do(st.Handler, &s3x.Req{Method: "GET", Path: "/bk0/" + key, Query: s3x.Q("uploadId", uploadID)})
+		var pd s3x.ListPartsDoc
+		if lp.Status != 200 || lp.XML(&pd) != nil {
+			fail("listparts-failed", "ListParts after the part upload answered %s", lp)
+			return
+		}
+		if (r.Status == 200) != (len(pd.Parts) == 1) {
+			fail("part-bookkeeping", "the part upload answered %d and the upload now holds %d parts", r.Status, len(pd.Parts))
+			return
+		}
+		if r.Status == 200 {
+			if pd.Parts[0].ETag != r.Header.Get("ETag") || pd.Parts[0].Size != int64(len(payload)) {
+				fail("part-size", "the acknowledged part is listed with size %d ETag %s; the stream carries %d payload bytes, the answer said ETag %s", pd.Parts[0].Size, pd.Parts[0].ETag, len(payload), r.Header.Get("ETag"))
+			}
+			cb := "<CompleteMultipartUpload><Part><PartNumber>1</PartNumber><ETag>" + xmlEsc(r.Header.Get("ETag")) + "</ETag></Part></CompleteMultipartUpload>"
+			if c := s3x.Do(st.Handler, &s3x.Req{Method: "POST", Path: "/bk0/" + key, Query: s3x.Q("uploadId", uploadID), Body: []byte(cb)}); c.Status != 200 {
+				fail("complete-failed", "completing the upload of the acknowledged part answered %s", c)
+				return
+			}
+		}
 	}
 	g := get(st, "bk0", key)
 	prevOK := func() bool {
@@ -149,7 +169,7 @@ func c12Check(cs c12Case) (ds []disc) {
 		}
 		return g.Status == 404
 	}
-	wellFormed := cs.Mut == "" && !mismatch
+	wellFormed := verdict == oracle.ChunkWellFormed && !mismatch
 	switch {
 	case wellFormed:
 		if r.Status != 200 {
@@ -158,6 +178,12 @@ func c12Check(cs c12Case) (ds []disc) {
 		}
 		if et := r.Header.Get("ETag"); et != etagOf(payload) {
 			fail("put-etag", "PUT ETag %s want %s", et, etagOf(payload))
+		}
+		if cs.ViaPart {
+			if g.Status != 200 || !bytes.Equal(g.Body, payload) {
+				fail("stored-differs", "after completing the upload GET returned %d, %d bytes (md5 %s); the part's payload has %d bytes (md5 %s)%s", g.Status, len(g.Body), md5hex(g.Body), len(payload), md5hex(payload), firstDiff(g.Body, payload))
+			}
+			return
 		}
 		if g.Status != 200 || !bytes.Equal(g.Body, payload) {
 			fail("stored-differs", "GET returned %d, %d bytes (md5 %s); the payload has %d bytes (md5 %s)%s", g.Status, len(g.Body), md5hex(g.Body), len(payload), md5hex(payload), firstDiff(g.Body, payload))
@@ -301,6 +327,24 @@ func c12Run(t *testing.T, c *evid.Collector) {
 				}
 			}
 		}
+		// the same framing on a part of a multipart upload
+		for _, p := range []bodySpec{{Lit: []byte("x")}, {N: 100, Seed: 1}, {N: 70000, Seed: 12}} {
+			for _, ch := range [][]int{{65536}, {7}, {1000, 1, 50000, 3}} {
+				if p.N > 40000 && ch[0] < 8 {
+					continue
+				}
+				for _, fr := range []s3x.Frag{{Mode: "whole"}, {Mode: "n", N: 4096}} {
+					for _, m := range []string{"", "truncate", "no-final-chunk", "missing-crlf-after-data"} {
+						i++
+						if i%evid.Shards() != evid.Shard() {
+							continue
+						}
+						cs := c12Case{Backend: cfg.K, StreamBuf: cfg.Buf, Payload: p, Chunks: ch, Frag: fr, Mut: m, MutK: 120, Prior: i%2 == 0, ViaPart: true}
+						record(cs, c12Check(cs), "grid-part")
+					}
+				}
+			}
+		}
 		// chunk sizes whose hexadecimal form has letters, written in either case
 		for _, ch := range [][]int{{0xab, 0x1c0, 0xf}, {0xabcdef % 70000, 0xfade}, {10, 0xbeef, 0xa}} {
 			for _, up := range []bool{false, true} {
@@ -425,6 +469,15 @@ func FuzzC12(f *testing.F) {
 			st.Close()
 			if r.Panic != "" {
 				t.Fatalf("C12: panic %s at %s", r.Panic, r.PanicSite)
+			}
+			dec, verdict := oracle.ChunkedStrict(stream)
+			switch {
+			case verdict == oracle.ChunkMalformed && r.Status < 400:
+				t.Fatalf("C12: %s accepted (%d) a stream that is not aws-chunked framing", cfg.K, r.Status)
+			case verdict == oracle.ChunkWellFormed && len(dec) == declared && (r.Status != 200 || g.Status != 200 || !bytes.Equal(g.Body, dec)):
+				t.Fatalf("C12: %s: a well-formed stream of %d payload bytes was answered %d and the key reads %d with %d bytes", cfg.K, len(dec), r.Status, g.Status, len(g.Body))
+			case verdict != oracle.ChunkMalformed && len(dec) != declared && r.Status < 400:
+				t.Fatalf("C12: %s accepted (%d) a stream of %d payload bytes declared as %d", cfg.K, r.Status, len(dec), declared)
 			}
 			if r.Status >= 400 {
 				if g.Status != 200 || !bytes.Equal(g.Body, c12Prior) {
